@@ -22,8 +22,15 @@ def generate(tier):
     else:
         cfgs = lambda c: [3, 4, 5]  # noqa: E731
         timeout = 400
-    return cell_obligations('C11', 'c11_obl', check_call, cells, cfgs,
+    obls = cell_obligations('C11', 'c11_obl', check_call, cells, cfgs,
                             timeout)
+    # the line every debug record carries comes from this function
+    from props import c05
+    from vlib.runner import HarnessWriter
+    w = HarnessWriter('c11_pos', c05.HEADER)
+    obls.append(c05.line_col_obligation(w, tier == 'quick', 'build.c11_pos'))
+    w.write()
+    return obls
 
 
 def run(tier):
